@@ -148,6 +148,6 @@ SUBS = [
 
 MANIFEST = {
     "technique": "property-based testing with exports treated as programs: independent SXFM and propositional-formula interpreters evaluated over all 2^n selections against an independent brute-force configuration enumerator",
-    "level_text": "For every generated Boolean model (<= 9 features) both exports are interpreted under the target format's semantics and must accept exactly the brute-force configuration set; exhaustive over selections per model, sampling over models.",
+    "level_text": "For every generated Boolean model (<= 9 features) both exports are interpreted under the target format's semantics and must accept exactly the brute-force configuration set; exhaustive over selections per model, sampling over models. Also: groups of 10-24 members (propositional export: 10 and 16-17 members) judged on boundary selections carried by the case, every constraint tree of two exhaustive families on a fixed three-feature model, and a failing export before the real one. A sample of every sub-check additionally runs in a `python -OO` child with the root logger at DEBUG.",
     "level_note": "Trusted: vf/interp.py (my transcription of SXFM and .exp semantics), vf/semantics.py, vf/logic.py.",
 }
